@@ -538,6 +538,15 @@ def forceFail (w : World) (t : Nat) : World × Bool :=
     | some w2 => (w2, false)
     | none => (w1, true)
 
+/-- the first step of `_on_action_update(x)`: `task.on_action_update` = `Task.update(x.state)` of the parent task -/
+def updateLocal (w : World) (x : Nat) : World :=
+  match w.execs[x]? with
+  | none => w
+  | some e =>
+    match e.parent with
+    | none => w
+    | some t => taskUpdate w t e.state
+
 inductive Mode where
   | pause      -- workflow_handler.pause_workflow(x)
   | resume     -- workflow_handler.resume_workflow(x)
@@ -551,8 +560,11 @@ inductive Mode where
     sub-workflows are visited), then the workflow itself, then (`schedule_on_action_update`) the parent task and the
     parent workflow — synchronously for a plain parent task, through a scheduler job for a with-items one.
     Result: the world and "an exception left this call" (an invalid transition in `Workflow.set_state`;
-    inside `_on_action_update` it is caught and the parent task is force-failed).  Fuel: nesting depth. -/
+    inside `_on_action_update` it is caught and the parent task is force-failed).  Fuel: nesting depth (a call
+    without fuel does nothing, except that `_on_action_update` still updates the parent task: the local step
+    never depends on the fuel). -/
 def prop (c : Cfg) : Nat → Mode → World → Nat → World × Bool
+  | 0, .update, w, x => (updateLocal w x, false)
   | 0, _, w, _ => (w, false)
   | f + 1, .pause, w, x =>
     let r := (kidsOf w x).foldl (fun (acc : World × Bool) k =>
